@@ -57,6 +57,15 @@ CHECKS = {
  "C04": ("model_checking", "TLA+ spec Mpi.tla (ranks with program counters, two collectives per iteration with arrival sets, split from Split.tla): TLC explores all interleavings for P <= 3 and plans incl. N = 0, N < P, remainders (invariants Disjoint, Covers, SamePosition, ReducedIsSerial; deadlock check on; the 'skip second collective' alternative deadlocks); trace validation (Trace_C04) of mpi_plain / mpi_vegas / mpi_multi_channel under a thread-based MPI shim for world sizes 1..33 against the serial run: stream position of every evaluated point, collective signatures, counters, stored generator, sums, stop decisions, returned checkpoints",
          "Which rank evaluates which stream position is decided by Split.tla inside the per-rank trace machines; equality with the serial run is exact where the inputs are exact (integer integrand values, dyadic weights) and 'up to reassociation' (1 unit of 2^-6) otherwise.",
          "TLC; MPI shim (seeded arrival and reduction orders); real Open MPI is not part of the quick tier", "5/C04"),
+ "C01": ("model_checking", "TLA+ spec Measure.tla: exact midpoint-lattice sums for VEGAS grids (via Refine!Icdf*) and multi-channel maps (piecewise linear channels, densities, weights, selector lattice via Select!Owner) in rational arithmetic; TLC proves lattice sum = integral for the bounded family (MC_Measure); trace validation (Trace_C01) of hep::plain / hep::vegas / hep::multi_channel driven by a scripted midpoint lattice: exact equality for dyadic grids, tolerance-bounded for multi-channel and for grids reached by adaptation",
+         "Measure preservation is an exact theorem in the model; the implementation is bound by requiring the same exact values (1, 1/2, the indicator's edge) from lattice iterations on user grids, weight vectors with zeros and minimum weights, common jacobian factors, and adapted states.",
+         "TLC; exactness by construction for VEGAS / PLAIN; float-vs-rational comparison within 8-64 units of 2^-20 for multi-channel; 256 eps on adapted grids", "5/C01"),
+ "C13": ("model_checking", "TLA+ spec Combine.tla (weighted_with_variance, weighted_equally, chi_square_dof as exact rationals; Laws): TLC checks the algebraic laws, permutation invariance and special cases on all sequences <= 3 (MC_Combine); trace validation (Trace_C13) of hep::accumulate / chi_square_dof on sequences of exactly representable results (three numeric types, dyadic scalings) and on results with 1-d and 2-d distributions bin by bin, tolerance = eps x conditioning computed by the spec",
+         "Expected values are exact rationals from the spec; the float-vs-rational comparison uses the conditioning the property itself names.",
+         "TLC; exactly representable inputs; tolerance in the spec (Kappa)", "5/C13"),
+ "C14": ("model_checking", "TLA+ spec Kahan.tla (toy floating point with a P-bit significand, KahanStep as coded): TLC proves the error bound on all sequences <= 9 over an 8-value alphabet for P = 3, 4, 5 and on long large-then-small sequences, and finds violations for the naive and the 'skip' variants (MC_Kahan); trace validation (Trace_C14): the library's own hep::accumulate<T> instantiated on minifloat<P> over exhaustive short and adversarial long sequences, and hep::plain on float / double / long double with N up to 10^5 (10^7) against an exact 128-bit sum, for the integral and every distribution bin",
+         "The bound is proved exhaustively for the algorithm in small formats and bound to the implementation through the template; for the real formats the spec supplies the acceptance criterion (<= 4 ulp of the sum of magnitudes for every N).",
+         "TLC; minifloat arithmetic = Kahan.tla arithmetic; exact-sum oracle for real types in C++ (128-bit integers)", "5/C14"),
 }
 
 NOT_YET = {}
